@@ -10,6 +10,7 @@ half-processed frame is value level), termination of third-party parsers.
 from __future__ import annotations
 
 import ast
+import re
 
 from ..prog import AnalysisError, FuncInfo, dotted, unparse
 from ..summaries import MayRaise, TOP, Wiring
@@ -44,6 +45,40 @@ def _leaves_loop(stmts) -> str:
                         return r
         return ""
     return rec(stmts, False)
+
+
+def _loop_exits(loop):
+    """break / return / raise statements that leave `loop` (nested loops' breaks and nested functions excluded)."""
+    out = []
+
+    def rec(nodes, depth):
+        for n in nodes:
+            if isinstance(n, (ast.FunctionDef, ast.AsyncFunctionDef, ast.ClassDef, ast.Lambda)):
+                continue
+            if isinstance(n, ast.Break) and depth == 0:
+                out.append(n)
+            if isinstance(n, (ast.Return, ast.Raise)):
+                out.append(n)
+            d2 = depth + (1 if isinstance(n, (ast.For, ast.While)) else 0)
+            for fld in ("body", "orelse", "finalbody"):
+                v = getattr(n, fld, None)
+                if isinstance(v, list):
+                    rec([x for x in v if isinstance(x, ast.stmt)], d2 if fld == "body" else depth)
+            for h in getattr(n, "handlers", []) or []:
+                rec(h.body, depth)
+    rec(loop.body, 0)
+    return out
+
+
+def _guards_read(fl, handler, read_vars) -> bool:
+    """The try statement owning `handler` contains the blocking read of the loop in its body."""
+    t = fl.parent.get(id(handler))
+    if not isinstance(t, ast.Try):
+        return False
+    for n in ast.walk(ast.Module(body=t.body, type_ignores=[])):
+        if isinstance(n, ast.Assign) and isinstance(n.targets[0], ast.Name) and n.targets[0].id in read_vars:
+            return True
+    return False
 
 
 def receive_loops(ctx, wiring):
@@ -137,6 +172,32 @@ def run(ctx):
                 ctx.ob("C04.escape", con, f"call#{idx}:{exc.split('.')[-1]}", verdict == "ok",
                        f"{exc} raised under the receive callback: {detail}. Witness: {wit[:500]}",
                        f"{fi.module.rel}:{c.lineno}")
+        # the loop may only be left through the link-down exits: OSError of the read call, or the stop sentinel of the queue
+        read_vars = set()
+        for n in ast.walk(loop):
+            if isinstance(n, ast.Assign) and isinstance(n.value, ast.Call) and isinstance(n.value.func, ast.Attribute) \
+                    and n.value.func.attr in ("recv", "recvfrom", "get", "receive") and isinstance(n.targets[0], ast.Name):
+                read_vars.add(n.targets[0].id)
+        k = 0
+        for n in _loop_exits(loop):
+            k += 1
+            why = None
+            par_chain = []
+            cur = n
+            while cur is not loop:
+                cur = fl.parent[id(cur)]
+                par_chain.append(cur)
+            in_oserror = any(isinstance(p_, ast.ExceptHandler) and p_.type is not None and "OSError" in unparse(p_.type) and
+                             _guards_read(fl, p_, read_vars) for p_ in par_chain)
+            st = fl.state_at(n)
+            sentinel = any(f.kind == "cond" and f.pol and re.fullmatch(r"(\w+) is None", f.key) and f.key.split(" ")[0] in read_vars
+                           for f in st.facts) and fi.cls is not None and fi.cls.name != "RawLinkLayer"
+            ok = in_oserror or sentinel
+            ctx.ob("C04.loop-exits", con, f"{type(n).__name__.lower()}#{k}", ok,
+                   f"`{type(n).__name__.lower()}` at line {n.lineno} leaves the receive loop " +
+                   ("on the link-down exit (" + ("OSError of the read call" if in_oserror else "stop sentinel") + ")" if ok else
+                    "under a condition that depends on the received frame / on frame processing: one frame can end reception for good"),
+                   f"{fi.module.rel}:{n.lineno}")
         # nothing escapes the thread function at all
         own = mr.of(fi)
         ctx.ob("C04.thread-survives", con, "escaping-classes", not own,
